@@ -125,3 +125,86 @@ func ParserRecovery() []*Grammar {
 	}
 	return out
 }
+
+func lexItems(src [][2]string, tags ...string) []*LexSpec {
+	var out []*LexSpec
+	for _, s := range src {
+		l := MustLexSpec(s[0], s[1])
+		for _, t := range tags {
+			l.Tags[t] = true
+		}
+		out = append(out, l)
+	}
+	return out
+}
+
+// LexGreedy: items for C02 (greedy operators only, no nullable rule, one mode).
+func LexGreedy() []*LexSpec {
+	return lexItems([][2]string{
+		{"L-kw1", "IF = 'if'\nID = [a-z]+"},
+		{"L-kw2", "ID = [a-z]+\nIF = 'if'"},
+		{"L-pfx", "A = 'ab'\nB = 'abcd'"},
+		{"L-ovl", "A = [a-m]+\nB = [k-z]+"},
+		{"L-nest", "A = [a-z]\nB = [m]\nC = [a-z][a-z]"},
+		{"L-touch", "A = [a-m][n-z]\nB = [a-z]+"},
+		{"L-ext", "A = [\\u0000-a]\nB = [z-\\U0010FFFF]\nC = ."},
+		{"L-neg", "A = ~[a-c]\nB = [a-c]+"},
+		{"L-diff", "A = [a-z]-[m-p]\nB = [m-p]+"},
+		{"L-ops", "A = ('ab'|'cd')* 'e'\nB = 'a'? 'b'+"},
+		{"L-mac", "@macro D = [0-9]\n@macro N = D+ ('.' D+)?\nNUM = N"},
+		{"L-utf", "A = 'é'\nB = '世'\nC = '𓅃'\nD = [一-鿿]+\nE = ~[\\u0000-\\uFFFF]"},
+		{"L-ws", "NUM = [0-9]+\nID = [a-z_][a-z0-9_]*\n@frag [ \\t\\n]+ @discard"},
+		{"L-esc", "A = '\\n'\nB = '\\t\\\\'\nC = [\\n\\-\\\\]+\nD = '\\x41\\u00e9'"},
+		{"L-dashcls", "A = [a\\-z]+\nB = [b-y]"},
+	})
+}
+
+// LexModes: items for C07.
+func LexModes() []*LexSpec {
+	return lexItems([][2]string{
+		{"L-mode1", "PLUS = '+'\nMINUS = '-'\nOPAREN = '(' @push_mode(Alt)\n@mode Alt {\nDASH = '-'\nCPAREN = ')' @pop_mode\n}"},
+		{"L-mode2", "ID = [a-z]+\nQ = '\"' @push_mode(String)\nRB = '}' @pop_mode\n@mode String {\nCHARS = [a-z]+\nINTERP = '{' @push_mode()\nEQ = '\"' @pop_mode\n}"},
+		{"L-mode3", "A = 'a' @push_mode(M1)\n@mode M1 {\nB = 'b' @push_mode(M2)\nB1 = 'x' @pop_mode\nB2 = 'r' @push_mode(M1)\n}\n@mode M2 {\nC = 'c' @push_mode(M2)\nC1 = 'x' @pop_mode\n}"},
+		{"L-act-poppush", "A = 'a' @push_mode(M)\n@mode M {\nB = 'b' @pop_mode @push_mode(N)\nX = 'x'\n}\n@mode N {\nC = 'c' @pop_mode\nY = 'y'\n}"},
+		{"L-act-pushpush", "K = 'k' @push_mode(M) @push_mode(N)\nZ = 'z'\n@mode M {\nP = 'p' @pop_mode\nQ = 'q'\n}\n@mode N {\nN1 = 'n' @pop_mode\nR = 'r'\n}"},
+		{"L-act-emitpush", "X = 'x'\n@frag 'q' @emit(X) @push_mode(M)\n@mode M {\nY = 'y' @pop_mode\n}"},
+		{"L-act-pushemit", "X = 'x'\n@frag 'q' @push_mode(M) @emit(X)\n@mode M {\nY = 'y' @pop_mode\n}"},
+		{"L-act-discardpop", "A = 'a' @push_mode(M)\n@mode M {\nB = 'b'\n@frag 'd' @discard @pop_mode\n}"},
+		{"L-act-popdiscard", "A = 'a' @push_mode(M)\n@mode M {\nB = 'b'\n@frag 'd' @pop_mode @discard\n}"},
+		{"L-act-fragpush", "A = 'a'\n@frag 'k' @push_mode(M)\n@mode M {\nB = 'b' @pop_mode\n}"},
+		{"L-acc", "@frag '\\'' @push_mode(Lit)\nID = [a-z]+\n@mode Lit {\nLITERAL = '\\'' @pop_mode\n@frag '\\\\' [\\\\'n]\n@frag ~[\\\\\\n']\n}"},
+	})
+}
+
+// LexNonGreedy: items for C08 (prefix, non-greedy repetition of a one-character
+// expression, literal terminator).
+func LexNonGreedy() []*LexSpec {
+	return lexItems([][2]string{
+		{"L-ng1", "C = '/*' .*? '*/'\nID = [a-z]+"},
+		{"L-ng2", "C = '<!--' .*? '-->'"},
+		{"L-ng3", "C = 'a' .*? 'aab'"},
+		{"L-ng4", "C = '\"' [a-z\"]*? '\"'"},
+		{"L-ng5", "C = '/*' .+? '*/'\nID = [a-z]+"},
+		{"L-ng6", "C = '<' [a-c]+? '>'"},
+		{"L-ng7", "C = 'a' [b-c]+? 'c'"},
+		{"L-ng8", "C = '\"' [a-z\"]+? '\"'"},
+		{"L-ng9", "C = 'x' ([a-b]|'c')*? 'cc'"},
+	})
+}
+
+// LexNonGreedyOverlap: a greedy rule shares a prefix with the non-greedy one.
+func LexNonGreedyOverlap() []*LexSpec {
+	return lexItems([][2]string{
+		{"L-ngov", "C = '/*' .*? '*/'\nD = '/' '*'+"},
+	}, "overlap")
+}
+
+// LexAccount: extra items for C11 (nullable rules, accumulating fragments).
+func LexAccount() []*LexSpec {
+	return lexItems([][2]string{
+		{"L-null-star", "A = 'a'*\nB = 'b'"},
+		{"L-null-opt", "B = 'b'?\nC = 'c'"},
+		{"L-accum-eof", "A = 'a'\n@frag 'k' 'l'"},
+		{"L-accum-null", "A = 'a'\n@frag 'k'*"},
+	})
+}
